@@ -245,7 +245,11 @@ def _run(seed):
 def check_run_without_logger(cfg, seed):
     """the same configuration on a runner built WITHOUT a logger: the hooks of the probe event must fire at the same occasions (C13 does not depend on logging)"""
     with_logger = [e[:1] + tuple(e[1:2] if e[0] in ("h_bm", "h_am", "h_bs", "h_as") else ()) + tuple(e[2:3] if e[0] in ("h_bm", "h_am") else ()) for e in sim.EV if e[0].startswith("h_")]
+    with_cb = [(e[0], e[1]) + ((e[3], tuple(sorted(e[4].items()))) if e[0] == "cb_exe" else ()) for e in sim.EV if e[0].startswith("cb_")]
     r2 = sim.run_cfg(cfg, seed, logger=None)
+    without_cb = [(e[0], e[1]) + ((e[3], tuple(sorted(e[4].items()))) if e[0] == "cb_exe" else ()) for e in sim.EV if e[0].startswith("cb_")]
+    if with_cb != without_cb:
+        raise V_("SequentialRunner._run", "C07 the agents' notifications and holdings do not depend on whether a logger is attached", dict(with_logger=len(with_cb), without_logger=len(without_cb)))
     without = [e[:1] + tuple(e[1:2] if e[0] in ("h_bm", "h_am", "h_bs", "h_as") else ()) + tuple(e[2:3] if e[0] in ("h_bm", "h_am") else ()) for e in sim.EV if e[0].startswith("h_")]
     if with_logger != without:
         k = next((i for i, (a, b) in enumerate(zip(with_logger, without)) if a != b), min(len(with_logger), len(without)))
